@@ -316,7 +316,11 @@ def canon(t, depth=0):
             return "closure(%s)" % norm_name(t[2]).split("::")[-1]
         return "%s(%s)" % (t[1], ", ".join(canon(v, d) for v in t[3]))
     if tag == "call":
-        return "%s(%s)" % (short(t[1]), ", ".join(canon(a, d) for a in t[2]))
+        sn = short(t[1])
+        if sn in ("Option::expect", "Result::expect", "Result::expect_err") and len(t[2]) == 2:
+            # the panic message is documentation, not behaviour
+            return "%s(%s, '_')" % (sn, canon(t[2][0], d))
+        return "%s(%s)" % (sn, ", ".join(canon(a, d) for a in t[2]))
     if tag == "icall":
         return "(%s)(%s)" % (canon(t[1], d), ", ".join(canon(a, d) for a in t[2]))
     if tag == "phi":
